@@ -8,23 +8,32 @@
 // time.  Commands are Go closures that read the dependency's files.
 //
 //	depload <scratch dir>      line protocol on stdin, one case per line (fields separated by tabs):
-//	    case <n outputs> <k dependants> <schedule> [<init>]
+//	    case <n outputs> <k dependants> <schedule> [<init>] [<m>]
 //	  schedule = comma separated tokens
 //	    s<t>  dependant t is handed to a worker: LoadDependencyOutputs, then its command
 //	    g     release ONE held blob read: the one of the lowest output index   (G: the highest)
+//	    r     the oldest run of the dependency's command that waits at its gate goes on
 //	  init = n characters, s = the workspace copy of output i is stale (bytes of another version), m = missing
 //	         (default: all stale)
-//	  After every token the harness waits until every goroutine is blocked (quiescence, read off the goroutine
-//	  states of the runtime: no timing).  After the last token every remaining held read is released, one window each.
-//	  answer: windows joined by ';', a window = <token>/<held>/<events>
-//	    token   s<t> | g:<i> (the read of blob i was released) | g:- (nothing was held)
+//	  m    = the blobs of the outputs m, ..., n-1 are LOST from the cache (default n: none).  A dependant that finds the
+//	         dependency unrestorable re-runs it: the dependency has a real command (run by the executor through sh)
+//	         that half-writes every output, waits at a gate (a FIFO of its own), then writes every output completely
+//	  After every token the harness waits until every goroutine is blocked and every running command of the dependency
+//	  sits at its gate (quiescence, read off the goroutine states of the runtime and /proc: no timing).  After the last
+//	  token every remaining held read / waiting command is released, one window each.
+//	  answer: windows joined by ';', a window = <token>/<held>/<gate>/<events>
+//	    token   s<t> | g:<i> (the read of blob i was released) | g:- (nothing was held) | r:<j> (the j-th run of the
+//	            dependency's command was let go) | r:- (no run was waiting)
 //	    held    output indices whose blob read is held at the gate when the window ends, joined by '+', or '-'
+//	    gate    number of runs of the dependency's command that wait at their gate when the window ends
 //	    events  in order of occurrence, joined by ',' (or '-'):
-//	            tget (a target result was read), get:<i> (a read of blob i reached the backend),
-//	            cmd:<t>:<c|s|m per output> (the command of t ran and saw current | stale | missing), err:<t> (load failed)
-//	  then ';end/<started dependants whose command has not run, joined by '+', or '-'>/<ok|hang|stuck:<goroutine state>>'
-//	    hang  = quiescent, nothing held, a started dependant never ran its command (deadlock)
-//	    stuck = no quiescence within the timeout
+//	            tget (a target result was read), get:<i> (a read of blob i reached the backend), lost:<i> (a read of the
+//	            lost blob i failed), cmd:<t>:<c|s|m|t per output> (the command of t ran and saw current | stale | missing |
+//	            torn), err:<t> (load failed), run (a run of the dependency's command started), ran (one ended)
+//	  then ';end/<started dependants whose command has not run, joined by '+', or '-'>/<ok|hang|stuck:<goroutine state>>/<cached>'
+//	    hang   = quiescent, nothing held, no run waiting, a started dependant never ran its command (deadlock)
+//	    stuck  = no quiescence within the timeout
+//	    cached = c|s|m|t per output: the bytes the cache holds for the dependency's result after a re-run, '-' = no re-run
 //	  A line "caps" is answered with "caps\t<size of the registry's restore pool>".
 package main
 
@@ -66,6 +75,9 @@ func (b *backend) Get(_ context.Context, path, key string) (io.ReadCloser, error
 	b.mu.Lock()
 	content, ok := b.data[path+"/"+key]
 	if !ok {
+		if idx, known := b.blobs[key]; b.armed && path == "cas" && known {
+			b.events = append(b.events, "lost:"+strconv.Itoa(idx))
+		}
 		b.mu.Unlock()
 		return nil, os.ErrNotExist
 	}
